@@ -138,11 +138,14 @@ def big_load(task):
 
         res = {}
         load(list(range(24)), res, "alone")
-        ts = [threading.Thread(target=load, args=(list(range(0, 16)), res, "t1")), threading.Thread(target=load, args=(list(range(8, 24)), res, "t2"))]
+        ts = [threading.Thread(target=load, args=(list(range(0, 16)), res, "t1"), daemon=True), threading.Thread(target=load, args=(list(range(8, 24)), res, "t2"), daemon=True)]
         for t in ts:
             t.start()
         for t in ts:
             t.join(120)
+        for k in ("t1", "t2"):
+            if k not in res:
+                res[k] = "did not complete within 120 s (deadlock)"
         for k, msg in res.items():
             if msg:
                 out["bad"].append((k, msg))
@@ -182,8 +185,8 @@ def stall_load(task):
 
         path = f"{tracefs.norm(url)}/{im['name']}"
         tracefs.STALL[path] = [task["hold"], 1]
-        t1 = threading.Thread(target=load, args=(da, [0, 1, 2, 3], "stalled load"))
-        t2 = threading.Thread(target=load, args=(other, [4, 5, 6, 7], "waiting load"))
+        t1 = threading.Thread(target=load, args=(da, [0, 1, 2, 3], "stalled load"), daemon=True)
+        t2 = threading.Thread(target=load, args=(other, [4, 5, 6, 7], "waiting load"), daemon=True)
         t1.start()
         time.sleep(0.5)
         t2.start()
@@ -251,6 +254,11 @@ def crowd_load(task):
     return out
 
 
+def run_any(item):
+    kind, t = item
+    return {"stall": stall_load, "crowd": crowd_load, "sched": run_schedules}[kind](t)
+
+
 def scripts_from_tlc(cfg, n, depth, seed):
     from harness import behaviours
 
@@ -312,18 +320,19 @@ def body(chk):
     stalls = [dict(level=("1.5", "1.1")[i % 2], seed=chk.seed + 300 + i, hold=h, via=via) for i, (h, via) in enumerate((h, via) for h in holds for via in ("same", "pickled"))]
     crowds = [dict(level=("1.5", "1.1")[i % 2], seed=chk.seed + 320 + i, fs=fs, threads=[4, 5, 8, 16] if nq else [4, 5, 6, 8, 12, 16, 32, 64], reps=5 if nq else 40)
               for i, fs in enumerate(("local", "vtrace", "memory", "file"))]
-    import multiprocessing.pool
-
-    side = multiprocessing.pool.ThreadPool(2)
-    stall_async = side.apply_async(lambda: checklib.pmap(stall_load, stalls, chk.scratch, procs=len(stalls)))
-    crowd_async = side.apply_async(lambda: checklib.pmap(crowd_load, crowds, chk.scratch, procs=len(crowds)))
-    results = checklib.pmap(run_schedules, tasks, chk.scratch)
-    for res in stall_async.get():
+    # one pool for everything (no helper threads in this process: forking from a multi-threaded parent can deadlock the children); the
+    # long-running stall / crowd tasks go first so that they overlap with the schedules
+    mixed = [("stall", t) for t in stalls] + [("crowd", t) for t in crowds] + [("sched", t) for t in tasks]
+    mixed_res = checklib.pmap(run_any, mixed, chk.scratch)
+    stall_res = [r for (k, _), r in zip(mixed, mixed_res) if k == "stall"]
+    crowd_res = [r for (k, _), r in zip(mixed, mixed_res) if k == "crowd"]
+    results = [r for (k, _), r in zip(mixed, mixed_res) if k == "sched"]
+    for res in stall_res:
         chk.count(2, f"stall:{res['task']['hold']}:{res['task']['via']}")
         for who, msg in res["bad"]:
             chk.violation(f"stalled-request:{res['task']['via']}:{who}", f"a request of one load hangs for {res['task']['hold']} s on a one-object-per-path file system while a second load of the "
                           f"same variable ({res['task']['via']}) waits: {who}: {msg}", {"task": res["task"]})
-    for res in crowd_async.get():
+    for res in crowd_res:
         chk.count(res["loads"], f"crowd:{res['task']['fs']}")
         for who, msg in res["bad"][:2]:
             chk.violation(f"crowd:{who}", f"[{res['task']['fs']}] {msg}", {"task": res["task"]})
